@@ -128,11 +128,15 @@ func (p PackedSignature) WriteTo(w io.Writer) (n int64, err error) {
 	return n1, err
 }
 
-func (p PackedSignature) ReadFrom(r io.Reader) (n int64, err error) {
-	n1, err := (*pk.VarInt)(&p.ID).ReadFrom(r)
+// ReadFrom is the inverse of WriteTo: the wire carries ID+1, and 0 announces a full signature.
+// (Pointer receiver: a value receiver would decode into a copy.)
+func (p *PackedSignature) ReadFrom(r io.Reader) (n int64, err error) {
+	var wireID pk.VarInt
+	n1, err := wireID.ReadFrom(r)
 	if err != nil {
 		return n1, err
 	}
+	p.ID = int32(wireID) - 1
 
 	if p.ID == -1 {
 		if p.Signature == nil {
